@@ -11,7 +11,12 @@ namespace Acpi
 def accessSizeOf (tsize : Nat) : Nat :=
   if tsize = 1 then 1 else if tsize = 2 then 2 else if tsize = 4 then 3 else 4
 
-/-- `GenericAddress::io_port_address::<T>(a: u16)` / `mmio_address::<T>(a: u64)` as bytes -/
+/-- `access_size_of::<T>()` ends in `unreachable!()` for every other size of `T`: both constructors
+    refuse a register type that has no Access Size code -/
+def genericAddressRefuses (tsize : Nat) : Bool := !(tsize == 1 || tsize == 2 || tsize == 4 || tsize == 8)
+
+/-- `GenericAddress::io_port_address::<T>(a: u16)` / `mmio_address::<T>(a: u64)` as bytes (for the sizes
+    that are not refused) -/
 def genericAddress (io : Bool) (tsize addr : Nat) : List Fld :=
   [b8 (if io then 1 else 0), b8 ((8 * tsize) % 256), b8 0, b8 (accessSizeOf tsize), q64 addr]
 
